@@ -90,12 +90,13 @@ def element(env, ny, via="assemble", model="tube"):
 
 
 @job("c10.assembly", ("C10", "C02"), cfgs=[dict(ny=2, symmetry=True, yshift=0.0), dict(ny=3, symmetry=False, yshift=0.0), dict(ny=3, symmetry=False, yshift=2.5),
+                                            dict(ny=3, symmetry=True, yshift=0.0, side="right"),        # right half: the symmetry-plane node is the first one
                                             dict(ny=4, symmetry=True, yshift=0.0, _tier=T), dict(ny=5, symmetry=False, yshift=-1.0, _tier=T)], ranges=R10, cost=10)
-def assembly(env, ny, symmetry, yshift):
+def assembly(env, ny, symmetry, yshift, side="left"):
     """FEM residual == (direct-stiffness assembly of the element matrices + Lagrange rows clamping the root node) u - f;
     the clamped node is the symmetry-plane node (half span) / the wing centre node (full span) wherever the wing sits;
     solve_nonlinear after a visit to another point and a residual evaluation still solves the current system"""
-    s = surface(name="wing", nx=2, ny=ny, symmetry=symmetry, side="left", yshift=yshift)
+    s = surface(name="wing", nx=2, ny=ny, symmetry=symmetry, side=side, yshift=yshift)
     h = env.comp("fem", lambda: cls("structures.fem.FEM")(surface=s))
     ins = h.inputs()
     u = env.var("u", h.shape["disp_aug"])
@@ -106,12 +107,14 @@ def assembly(env, ny, symmetry, yshift):
     K[...] = 0 * u[0]
     for e in range(ny - 1):
         K[6 * e:6 * e + 12, 6 * e:6 * e + 12] = K[6 * e:6 * e + 12, 6 * e:6 * e + 12] + k[e]
-    root = ny - 1 if symmetry else (ny - 1) // 2
+    root = (ny - 1 if side == "left" else 0) if symmetry else (ny - 1) // 2
     for d in range(6):
         K[6 * root + d, 6 * ny + d] = K[6 * root + d, 6 * ny + d] + 10 ** 9
         K[6 * ny + d, 6 * root + d] = K[6 * ny + d, 6 * root + d] + 10 ** 9
     want = matmul(env, K, u) - np.asarray(ins["forces"]).reshape(-1)
     env.eq("C10", "FEM residual == (assembled frame stiffness with the root node clamped by Lagrange rows) u - f", res, want)
+    if symmetry and side == "right":
+        return                          # (the history clause below is stated for the configurations whose clamp is the documented one)
     if env.sym:
         # history: solve at another point, evaluate the residual at the current point, solve at the current point
         insP = h.inputs(tag="P.")
